@@ -24,3 +24,20 @@ Print Assumptions C08_reference_counts_exact.
 Theorem C08_unlock_then_count_refuted : In Violated (snd (run false bad_sched g0 [Idle; Idle; Idle])).
 Proof. exact pinned_order_refuted. Qed.
 Print Assumptions C08_unlock_then_count_refuted.
+
+(* ---- the sequential half, on the envelope model (Envelope/Live.v): through ANY history of new factories (any key-cache policy
+   and capacity >= 1, shared or per-session intermediate-key caches), new sessions, encrypts and decrypts under any fault plans,
+   clock changes and revocations - so any number of evictions, stale-entry refreshes and reloads - every key object that sits in
+   a key cache is open: its secret has not been destroyed.  (The invariant HIL also accounts every hold handed to a caller
+   against the object's reference count; C01_roundtrip_on_live_cached_sessions uses it to show the operations succeed.) *)
+From Asherah Require Envelope.Live.
+
+Theorem C08_cached_keys_stay_open : forall svc prod t0 ops,
+  Forall (Live.benignL svc prod) ops ->
+  let w := Session.h_world (snd (Session.hrun (Session.hinit t0) ops)) in
+  forall cid kc ks e, nth_error (World.w_caches w) cid = Some kc -> Coherent.b_abs (World.kc_backing kc) ks = Some e ->
+    Live.open_k w (World.ce_key e).
+Proof.
+  intros svc prod t0 ops FB w. apply (Live.HIL_cached_keys_open svc prod). exact (proj2 (Live.live_invariants_reachable svc prod t0 ops FB)).
+Qed.
+Print Assumptions C08_cached_keys_stay_open.
